@@ -45,4 +45,17 @@ def call(case):
                                                 got=np.asarray(out).ravel()[:4].tolist(), expected=np.asarray(want).ravel()[:4].tolist()))
                             elif klass == 'Hessian' and not np.array_equal(out, out.T):
                                 bad.append(dict(cls=klass, method=method, d=d, problem='not exactly symmetric'))
+    if case.get('variant') == 'second-call-with-other-args':
+        # one object, two calls with different extra arguments: f(x, s) = s * quadratic(x)
+        Qm = np.array([[2.0, -1.0], [-1.0, 3.0]]); x = np.array([0.4, -1.2])
+        for klass in ('Hessian', 'Hessdiag'):
+            for method in sorted({case.get('method', 'central'), 'central', 'forward'}):
+                obj = getattr(nd, klass)(lambda z, s: s * 0.5 * np.dot(z, np.dot(Qm, z)), method=method)
+                with warnings.catch_warnings():
+                    warnings.simplefilter('ignore')
+                    first = obj(x, 1.0); second = obj(x, 3.0)
+                want = 3.0 * (Qm if klass == 'Hessian' else np.diag(Qm))
+                if not np.allclose(second, want, rtol=1e-4, atol=1e-4):
+                    bad.append(dict(cls=klass, method=method, calls='obj(x, 1.0); obj(x, 3.0)', second_result=np.asarray(second).tolist(),
+                                    expected=want.tolist()))
     return dict(reproduced=bool(bad), failing=bad[:4], statement='Hessian of a quadratic is its matrix, exactly symmetric; Hessdiag its diagonal')
